@@ -83,37 +83,43 @@ def trivialComp (c : String) : Bool := c == "" || c == "."
 /-- an ordinary entry name: not empty, not `.`, not `..` -/
 def simple (c : String) : Bool := !(c == "" || c == "." || c == "..")
 
-/-- Path resolution.  `cur` is the physical path of the directory reached so far, `comps` what is left.
-Returns the physical path of the object named; that object may be absent when only its last component
-is missing (the callers decide between ENOENT and creating it).  `fl` = follow a symlink in the final
-position.  `fuel` = remaining symlink expansions. -/
-def walk (w : World) (fuel : Nat) (cur : Path) (comps : List String) (fl : Bool) : Except Errno Path :=
-  match comps with
-  | [] => .ok cur
-  | c :: rest =>
-    if trivialComp c then walk w fuel cur rest fl
-    else if c == ".." then walk w fuel cur.dropLast rest fl
+/-- outcome of walking one segment (the components up to the next symlink expansion) -/
+inductive Seg where
+  | done (r : Except Errno Path)
+  | expand (cur : Path) (comps : List String)
+
+/-- Walks `comps` from the directory `cur` until the end or until a symbolic link has to be expanded
+(structural on `comps`).  `fl` = follow a symlink in the final position. -/
+def walkSeg (w : World) (fl : Bool) : Path → List String → Seg
+  | cur, [] => .done (.ok cur)
+  | cur, c :: rest =>
+    if trivialComp c then walkSeg w fl cur rest
+    else if c == ".." then walkSeg w fl cur.dropLast rest
     else
       let q := cur ++ [c]
       match find w q with
-      | none => if rest.isEmpty then .ok q else .error .noent
+      | none => if rest.isEmpty then .done (.ok q) else .done (.error .noent)
       | some n =>
         match n.kind with
-        | .dir => walk w fuel q rest fl
-        | .file => if rest.isEmpty then .ok q else .error .notdir
+        | .dir => walkSeg w fl q rest
+        | .file => if rest.isEmpty then .done (.ok q) else .done (.error .notdir)
         | .link =>
-          if rest.isEmpty && !fl then .ok q
-          else match fuel with
-            | 0 => .error .loop
-            | fuel' + 1 =>
-              if n.target.head? == some "" then walk w fuel' [] (n.target ++ rest) fl
-              else walk w fuel' cur (n.target ++ rest) fl
-termination_by (fuel, comps.length)
-decreasing_by
-  all_goals simp_wf
-  all_goals first
-    | (apply Prod.Lex.right; simp)
-    | (apply Prod.Lex.left; omega)
+          if rest.isEmpty && !fl then .done (.ok q)
+          else if n.target.head? == some "" then .expand [] (n.target ++ rest)
+          else .expand cur (n.target ++ rest)
+
+/-- Path resolution.  `cur` is the physical path of the directory reached so far, `comps` what is left.
+Returns the physical path of the object named; that object may be absent when only its last component
+is missing (the callers decide between ENOENT and creating it).  `fuel` = remaining symlink expansions
+(ELOOP when exhausted).  Structural on `fuel`, so concrete resolutions evaluate in the kernel. -/
+def walk (w : World) : Nat → Path → List String → Bool → Except Errno Path
+  | fuel, cur, comps, fl =>
+    match walkSeg w fl cur comps with
+    | .done r => r
+    | .expand c cs =>
+      match fuel with
+      | 0 => .error .loop
+      | fuel' + 1 => walk w fuel' c cs fl
 
 /-- resolve an absolute path (components from the model root) -/
 def resolve (w : World) (p : Path) (fl : Bool) : Except Errno Path := walk w maxLinks [] p fl
